@@ -226,6 +226,60 @@ def model_check(chk, pid):
             chk.cov.setdefault("mutant_models_rejected", []).append(cfg)
 
 
+def drift_check(chk, bus, scen):
+    """Advisory (DESIGN 1.3): are the recorded call traces behaviours of the *system model* Conn.tla?  Observable events are
+    bound to Conn's actions, internal steps are silent (spec/trace/TraceConn.tla).  A trace the model cannot explain is
+    MODEL-DRIFT: printed, recorded in the evidence, never a verdict."""
+    import os
+    from concurrent.futures import ThreadPoolExecutor
+    sel = [s for s in scen if s["kind"] == "calls" and not s.get("timeout_ms") and
+           all(st[0] not in ("cancelcall", "sub", "signal", "partial", "writeerr") for st in s["steps"]) and
+           sum(1 for st in s["steps"] if st[0] == "call") <= 4]
+    sel = sel[: (12 if chk.quick else 400)]
+    if not sel:
+        return
+    groups = [sel[i:i + 4] for i in range(0, len(sel), 4)]
+    base = open(os.path.join(core.SPEC, "trace", "TraceConn.cfg")).read()
+
+    def one(gi):
+        g = groups[gi]
+        sp = chk.path("drift_sc%d.ndjson" % gi)
+        with open(sp, "w") as f:
+            for s in g:
+                f.write(json.dumps(s) + "\n")
+        tp = chk.path("drift_tr%d.ndjson" % gi)
+        core.run_bin(bus, ["run", sp, tp], timeout=600)
+        evs = [json.loads(x) for x in open(tp)]
+        callers = sorted({e["c"] for e in evs if e["ev"] == "CallStart"})
+        nore = sorted({e["c"] for e in evs if e["ev"] == "CallStart" and e["noreply"]})
+        cfg = base.replace("Callers <- TC_Callers", "Callers = {%s}" % ", ".join(map(str, callers)))
+        cfg = cfg.replace("NoReply <- TC_NoReply", "NoReply = {%s}" % ", ".join(map(str, nore))) + "POSTCONDITION Post\n"
+        cp = chk.path("TraceConn_%d.cfg" % gi)
+        open(cp, "w").write(cfg)
+        try:
+            r = core.tlc("trace/TraceConn.tla", cp, env={"TRACE": tp}, workers=1, deque=True, heap="3g", timeout=(60 if chk.quick else 300))
+        except core.ToolError as e:      # advisory check: a timeout is reported, never fatal
+            return None, len(evs), 0, {"tool": str(e)[:200]}, 0
+        ok = bool(r.violation) and "NotYetAccepted is violated" in r.violation
+        pre = (r.emits.get("PREFIX") or [{"explained": 0}])[0]["explained"]
+        return ok, len(evs), pre, (evs[pre] if pre < len(evs) else None), r.distinct
+
+    with ThreadPoolExecutor(max_workers=4) as ex:
+        res = list(ex.map(one, range(len(groups))))
+    acc = sum(len(groups[i]) for i, r in enumerate(res) if r[0])
+    chk.cov["system_model_traces_explained"] = acc
+    chk.cov["system_model_traces_checked"] = len(sel)
+    chk.add("states", sum(r[4] for r in res))
+    chk.cov["system_model_groups_timed_out"] = sum(1 for r in res if r[0] is None)
+    for i, (ok, n, pre, ev, _) in enumerate(res):
+        if ok is None:
+            chk.notes.append("system-model trace validation of group %d gave up: %s" % (i, ev))
+        elif not ok:
+            msg = "MODEL-DRIFT: Conn.tla explains only %d of %d events of trace group %d; first unexplained event: %s" % (pre, n, i, json.dumps(ev)[:300])
+            core.log(msg)
+            chk.notes.append(msg)
+
+
 def run(pid, tier, replay):
     chk = core.Check(pid, "fault_enumeration" if pid == "C38" else "model_checking", tier)
     bus = core.build("bus")
@@ -282,6 +336,8 @@ def run(pid, tier, replay):
             key = what + ":after-dropping-a-clone-or-its-original"
         chk.report(key, {"clause": what, "detail": m.get("detail"), "origin": by_id.get(scn, {}).get("origin")},
                    {"scenario": by_id.get(scn), "mismatch": m, "trace": evs[:400]})
+    if pid == "C19" and not replay:
+        drift_check(chk, bus, scen)
     chk.add("traces_validated_against_impl", len(scen))
     chk.cov["evaluations"] = len(scen)
     chk.cov["events_validated"] = len(lines)
